@@ -97,9 +97,11 @@ func (c *Chain[I, O]) compile(ctx context.Context, option *graphCompileOptions) 
 // only run once when compiling.
 func (c *Chain[I, O]) addEndIfNeeded() error {
 	if c.hasEnd {
-		// END was connected by an earlier Compile. If that Compile failed afterwards (the
-		// chain is not compiled), problems recorded since then must still be reported.
-		if c.err != nil && !c.gg.compiled {
+		// END was connected by an earlier Compile. Problems recorded since then must still be
+		// reported: errors of Append* calls made after that Compile failed, and the refusal
+		// (ErrChainCompiled) of Append* calls made after it succeeded - the next Compile is the
+		// only place where a chain can report them.
+		if c.err != nil {
 			return c.err
 		}
 		return nil
